@@ -506,20 +506,40 @@ func parse(q string) (*parsed, error) {
 		if out.table, err = p.ident(); err != nil {
 			return nil, err
 		}
-		if !p.kw("set") || !p.punct("(") {
+		if !p.kw("set") {
 			return nil, fmt.Errorf("pgmini: syntax error in UPDATE")
 		}
-		if out.cols, err = p.identList(); err != nil {
-			return nil, err
-		}
-		if !p.punct(")") || !p.punct("=") || !p.punct("(") {
-			return nil, fmt.Errorf("pgmini: syntax error in UPDATE")
-		}
-		if out.vals, err = p.phList(); err != nil {
-			return nil, err
-		}
-		if !p.punct(")") {
-			return nil, fmt.Errorf("pgmini: syntax error: ) expected")
+		if p.punct("(") { // SET (a, b) = ($1, $2)
+			if out.cols, err = p.identList(); err != nil {
+				return nil, err
+			}
+			if !p.punct(")") || !p.punct("=") || !p.punct("(") {
+				return nil, fmt.Errorf("pgmini: syntax error in UPDATE")
+			}
+			if out.vals, err = p.phList(); err != nil {
+				return nil, err
+			}
+			if !p.punct(")") {
+				return nil, fmt.Errorf("pgmini: syntax error: ) expected")
+			}
+		} else { // SET a = $1, b = $2
+			for {
+				col, err := p.ident()
+				if err != nil {
+					return nil, err
+				}
+				if !p.punct("=") {
+					return nil, fmt.Errorf("pgmini: syntax error in UPDATE: = expected")
+				}
+				n, err := p.placeholder()
+				if err != nil {
+					return nil, err
+				}
+				out.cols, out.vals = append(out.cols, col), append(out.vals, n)
+				if !p.punct(",") {
+					break
+				}
+			}
 		}
 		if err := tail(); err != nil {
 			return nil, err
